@@ -12,7 +12,7 @@ func init() {
 	gens["C12"] = func(tier string, r *rng, emit func(string)) { genEW("C12", tier, r, emit) }
 }
 
-var ewLayouts = []string{"rm", "rm", "T", "slice", "stepslice", "mat", "cm", "cmb"}
+var ewLayouts = []string{"rm", "rm", "T", "slice", "stepslice", "mat", "cm", "cmb", "cmslice"}
 var arithOps = []string{"add", "sub", "mul", "div", "mod", "pow", "min", "max"}
 var cmpOps = []string{"gt", "gte", "lt", "lte", "eq", "ne"}
 var unOps = []string{"neg", "square", "cube", "abs", "sign"}
@@ -49,7 +49,7 @@ func (p *pb) prog() string { return strings.Join(p.ops, ";") }
 // every run and not only when the random generator happens to draw it.
 func sysEW(prop string, r *rng, emit func(string)) {
 	sh := []int{2, 3}
-	lays := []string{"rm", "T", "stepslice", "cm"}
+	lays := []string{"rm", "T", "stepslice", "cm", "cmslice"}
 	dts := []string{"i", "i64", "i32", "f64", "f32"}
 	for _, dt := range dts {
 		for _, la := range lays {
